@@ -322,7 +322,9 @@ fn c04(cx: &Ctx, o: &mut Outcome) {
         let c = &r.conns[i];
         let mut f = sc_conn.faults.clone();
         f.handler_err = false;
-        let entitled = sc_conn.strict_delivery() && f.is_clean() && !sc_conn.request.0.is_empty();
+        // a fault of the disk seam hit this connection: what it owes is "no panic", like under a transport fault
+        let disk_hit = c.fired.iter().any(|x| x.starts_with("disk_"));
+        let entitled = sc_conn.strict_delivery() && f.is_clean() && !sc_conn.request.0.is_empty() && !disk_hit;
         let cause = |cited: &mut Vec<usize>| -> (String, String) {
             match r.panics.iter().position(|p| p.conn == Some(i)) {
                 Some(k) => {
@@ -371,7 +373,7 @@ fn c04(cx: &Ctx, o: &mut Outcome) {
                     }
                 }
             }
-        } else if sc_conn.client == ClientMode::Normal && f.is_clean() && !sc_conn.request.0.is_empty() && r.panics.iter().all(|p| p.conn != Some(i)) {
+        } else if !disk_hit && sc_conn.client == ClientMode::Normal && f.is_clean() && !sc_conn.request.0.is_empty() && r.panics.iter().all(|p| p.conn != Some(i)) {
             // the request arrived in several segments and nothing else went wrong: whatever
             // prefix the server acted on, it owes exactly one complete response
             if c.read_calls > 0 || r.end == End::Completed {
@@ -877,15 +879,40 @@ fn check_lookup(cx: &Ctx, prop: &str, i: usize, o: &mut Outcome) -> bool {
         200 => {
             // a declared content coding: compare with the precompressed sibling, or not at all
             if let Some(f0) = files.first() {
-                match coded_representation(cx, f0, resp) {
-                    Some(None) => return false,
-                    Some(Some(rep)) => {
-                        if *rep != resp.body {
-                            o.verdicts.push(v(prop, format!("lookup.{}.wrong_bytes_for_declared_coding", lk.note.replace(' ', "_")), format!("{}: Content-Encoding {:?} but the {} bytes sent are not the stored representation with that coding ({} bytes)", req_txt, resp.get("Content-Encoding"), resp.body.len(), rep.len()), Some(i)));
+                if let Some(enc) = resp.get("Content-Encoding").map(|e| e.trim().to_ascii_lowercase()).filter(|e| !e.is_empty() && e != "identity") {
+                    // a declared content coding: the client will decode the body and take the result for the
+                    // file. (1) the client must not have refused that coding; (2) when the body can be decoded
+                    // here (gzip with stored blocks), what comes out must be the file; a body that is not in
+                    // that coding at all is wrong; anything else cannot be judged
+                    let note = lk.note.replace(' ', "_");
+                    if let Some(ae) = rq.header("Accept-Encoding") {
+                        let refused = ae.split(',').any(|c| {
+                            let mut it = c.split(';');
+                            let name = it.next().unwrap_or("").trim().to_ascii_lowercase();
+                            let q0 = it.any(|p| { let p = p.trim().to_ascii_lowercase().replace(' ', ""); p == "q=0" || p == "q=0.0" || p == "q=0.00" || p == "q=0.000" });
+                            q0 && (name == enc || (enc == "gzip" && name == "x-gzip"))
+                        });
+                        if refused {
+                            o.verdicts.push(v(prop, format!("lookup.{}.coding_the_client_refused", note), format!("{} Accept-Encoding: {:?}: the answer is coded {:?}", req_txt, ae, enc), Some(i)));
+                            return true;
                         }
-                        return true;
                     }
-                    None => {}
+                    if enc == "gzip" || enc == "x-gzip" {
+                        match crate::util::gunzip_stored(&resp.body) {
+                            crate::util::Gunzip::Ok(plain) => {
+                                if Some(&plain) != cx.fs.file(f0) {
+                                    o.verdicts.push(v(prop, format!("lookup.{}.coded_body_decodes_to_other_bytes", note), format!("{}: the gzip body decodes to {} bytes that are not the file {} ({} bytes)", req_txt, plain.len(), f0.join("/"), cx.fs.file(f0).map(|b| b.len()).unwrap_or(0)), Some(i)));
+                                }
+                                return true;
+                            }
+                            crate::util::Gunzip::NotGzip(why) => {
+                                o.verdicts.push(v(prop, format!("lookup.{}.body_is_not_in_the_declared_coding", note), format!("{}: Content-Encoding gzip, but the {} bytes sent are not gzip ({})", req_txt, resp.body.len(), why), Some(i)));
+                                return true;
+                            }
+                            crate::util::Gunzip::Unsupported => return false,
+                        }
+                    }
+                    return false;
                 }
             }
             let hit = files.iter().find(|p| cx.fs.file(p).map(|b| *b == resp.body).unwrap_or(false));
@@ -1023,7 +1050,19 @@ fn c03(cx: &Ctx, o: &mut Outcome) {
         let rq = &cx.reqs[i];
         let range = match rq.header("Range") {
             Some(r) => r.to_string(),
-            None => continue,
+            None => {
+                // a client that sent no Range header (in one piece or torn) never gets a partial answer
+                if sc_conn.client == ClientMode::Normal && sc_conn.faults.is_clean() && rq.method == "GET" && cx.wellformed_req(i) && !contains(&sc_conn.request.0.to_ascii_lowercase(), b"range") {
+                    if let Some(resp) = cx.resp(i) {
+                        o.evaluated = true;
+                        // (this server labels whole-file answers with a Content-Range too; the status decides)
+                        if resp.code == 206 || resp.code == 416 {
+                            o.verdicts.push(v("C03", "partial_answer_without_range_header", format!("GET {} without a Range header (delivered in {} segment(s)) was answered {} with Content-Range {:?}", rq.target, sc_conn.delivery.len().max(1), resp.code, resp.get("Content-Range")), Some(i)));
+                        }
+                    }
+                }
+                continue;
+            }
         };
         if !sc_conn.strict() || rq.method != "GET" || !cx.wellformed_req(i) {
             continue;
